@@ -2,7 +2,10 @@
 //!
 //! [`m.secret.request`]: https://spec.matrix.org/latest/client-server-api/#msecretrequest
 
-use ruma_common::{serde::StringEnum, OwnedDeviceId, OwnedTransactionId};
+use ruma_common::{
+    serde::{OrdAsRefStr, PartialOrdAsRefStr, StringEnum},
+    OwnedDeviceId, OwnedTransactionId,
+};
 use ruma_macros::EventContent;
 use serde::{ser::SerializeStruct, Deserialize, Serialize};
 
@@ -110,7 +113,7 @@ impl TryFrom<RequestActionJsonRepr> for RequestAction {
 
 /// The name of a secret.
 #[doc = include_str!(concat!(env!("CARGO_MANIFEST_DIR"), "/src/doc/string_enum.md"))]
-#[derive(Clone, PartialEq, Eq, PartialOrd, Ord, StringEnum)]
+#[derive(Clone, PartialEq, Eq, PartialOrdAsRefStr, OrdAsRefStr, StringEnum)]
 #[cfg_attr(not(ruma_unstable_exhaustive_types), non_exhaustive)]
 pub enum SecretName {
     /// Cross-signing master key (m.cross_signing.master).
